@@ -37,14 +37,23 @@ theorem union_impl_eq_spec_outside (O : Oracle) (cx : Cx) (fx : Fx) (ts : List T
     (hK2 : ¬ K2event O cx fx ts d) (hK1 : ¬ K1event O cx fx ts d) :
     unpack O { cx with fixK1 := true, fixK2 := true } fx (.union ts) d = unpack O cx fx (.union ts) d := by
   rw [unpack, unpack]
-  simp only [h2, Bool.false_and, Bool.false_eq_true, if_false, Bool.true_and]
+  simp only [h2, Bool.true_or, Bool.true_and, Bool.false_or]
   by_cases hex : ts.any (fun t => t.isScalar && t.scalarCls == classOf d) = true
   · -- exact scalar member: the implementation's walk must return d as well
     rw [if_pos hex]
-    have : unionWalk O cx fx ts d = some d :=
-      Classical.byContradiction (fun hne => hK2 ⟨hex, hne⟩)
-    rw [this]
-  · rw [if_neg hex, hwalk]
+    by_cases hn : isNone d = true
+    · simp only [hn, hex, Bool.and_self, if_true]
+    · have hn' : isNone d = false := by simpa using hn
+      simp only [hn', Bool.false_and, Bool.false_eq_true, if_false]
+      have : unionWalk O cx fx ts d = some d :=
+        Classical.byContradiction (fun hne => hK2 ⟨hex, hne⟩)
+      rw [this]
+  · rw [if_neg hex]
+    have hex' : (isNone d && ts.any (fun t => t.isScalar && t.scalarCls == classOf d)) = false := by
+      have : ts.any (fun t => t.isScalar && t.scalarCls == classOf d) = false := by simpa using hex
+      simp [this]
+    simp only [hex', Bool.false_eq_true, if_false]
+    rw [hwalk]
     cases hw : unionWalk O cx fx ts d with
     | some r => rfl
     | none =>
